@@ -53,35 +53,57 @@ theorem hashDirect_ok {S : Bytes → Bytes} {x : R Bytes} {d : Bytes} (h : hashO
   cases h
   exact ⟨b, hb, rfl⟩
 
-/-- the translated `_serialized_hash_type` on a non-negative hash type: the four bytes of the word -/
-theorem serialized_hash_type_ok {ht : Int} {b : Bytes} (h0 : 0 ≤ ht)
-    (h : Gen.SigHash.serialized_hash_type ht = .ok b) : b = le4 (word ht) ∧ ht < 4294967296 := by
+theorem xor_mask32 (m : Nat) (hm : m < 2 ^ 32) : (2 ^ 32 - 1) ^^^ ((2 ^ 32 - 1) &&& m) = 2 ^ 32 - 1 - m := by
+  apply Nat.eq_of_testBit_eq
+  intro i
+  have e : 2 ^ 32 - 1 - m = 2 ^ 32 - (m + 1) := by omega
+  rw [e, Nat.testBit_two_pow_sub_succ hm]
+  simp only [Nat.testBit_xor, Nat.testBit_and, Nat.testBit_two_pow_sub_one]
+  cases decide (i < 32) <;> cases m.testBit i <;> rfl
+
+theorem land_mask32 {ht : Int} (h : -2147483648 ≤ ht ∧ ht < 4294967296) :
+    Py.land ht 4294967295 = ((word ht : Nat) : Int) := by
+  cases ht with
+  | ofNat n =>
+    simp only [Int.ofNat_eq_natCast] at h ⊢
+    have hr : n < 4294967296 := by omega
+    show ((n &&& 4294967295 : Nat) : Int) = _
+    have := Nat.and_two_pow_sub_one_eq_mod n 32
+    simp only [Nat.reducePow, Nat.add_one_sub_one] at this
+    rw [this, Nat.mod_eq_of_lt hr]
+    simp only [word]; omega
+  | negSucc m =>
+    have hneg : Int.negSucc m = -((m : Int) + 1) := Int.negSucc_eq m
+    rw [hneg] at h
+    have hm : m < 2 ^ 32 := by omega
+    show ((4294967295 ^^^ (4294967295 &&& m) : Nat) : Int) = _
+    have := xor_mask32 m hm
+    simp only [Nat.reducePow, Nat.add_one_sub_one] at this
+    rw [this]
+    simp only [word, hneg]; omega
+
+/-- the translated `_serialized_hash_type`: the four bytes of the two's complement word, for either spelling
+    (`-2^31 ≤ ht < 2^32`), and nothing outside that range -/
+theorem serialized_hash_type_ok {ht : Int} {b : Bytes}
+    (h : Gen.SigHash.serialized_hash_type ht = .ok b) :
+    b = le4 (word ht) ∧ -2147483648 ≤ ht ∧ ht < 4294967296 := by
   unfold Gen.SigHash.serialized_hash_type at h
   split at h
   · cases h
   · next hr =>
-    obtain ⟨n, rfl⟩ := Int.eq_ofNat_of_zero_le h0
-    have hr : n < 4294967296 := by omega
-    have hl : Py.land (n : Int) 4294967295 = (n : Int) := by
-      show ((n &&& 4294967295 : Nat) : Int) = n
-      have := Nat.and_two_pow_sub_one_eq_mod n 32
-      simp only [Nat.reducePow, Nat.add_one_sub_one] at this
-      rw [this, Nat.mod_eq_of_lt hr]
-    rw [hl] at h
+    have hr : -2147483648 ≤ ht ∧ ht < 4294967296 := by omega
+    rw [land_mask32 hr] at h
+    have hw : word ht < 4294967296 := by simp only [word]; omega
     simp only [Py.toBytesLE, bind, Except.bind, pure, Except.pure] at h
     split at h
     · cases h
     · split at h
       · cases h
       · cases h
-        refine ⟨?_, by omega⟩
-        simp only [le4, word]
-        congr 1
-        omega
+        exact ⟨by simp [le4], hr⟩
 
-/-- the btclib-shaped `segwit_v0` computes BIP143's digest (proved for the non-negative spelling of the
-    hash type; the negative `int32_t` spelling is tied by the correspondence streams) -/
-theorem segwitV0_eq_spec {S : Bytes → Bytes} {sc : Bytes} {tx : Tx} {i ht amount : Int} {d : Bytes} (h0 : 0 ≤ ht)
+/-- the btclib-shaped `segwit_v0` computes BIP143's digest, for either spelling of the hash type -/
+theorem segwitV0_eq_spec {S : Bytes → Bytes} {sc : Bytes} {tx : Tx} {i ht amount : Int} {d : Bytes}
     (h : segwitV0 S sc tx i ht amount none = .ok d) :
     d = bip143Digest (hash256 S) sc tx i.toNat (word ht) amount := by
   unfold segwitV0 at h
@@ -99,7 +121,7 @@ theorem segwitV0_eq_spec {S : Bytes → Bytes} {sc : Bytes} {tx : Tx} {i ht amou
   obtain ⟨p10, hp10, h⟩ := bind_ok h
   cases h
   rw [ser4_ok hp1, serOutPointC_ok hp4, serCAmount_ok hp6, ser4_ok hp7, ser4_ok hp9,
-    (serialized_hash_type_ok h0 hp10).1]
+    (serialized_hash_type_ok hp10).1]
   have e1 : hp = bip143HashPrevouts (hash256 S) tx (word ht) := by
     unfold bip143HashPrevouts
     unfold segHashPrevouts at hhp
@@ -151,5 +173,262 @@ theorem segwitV0_eq_spec {S : Bytes → Bytes} {sc : Bytes} {tx : Tx} {i ht amou
         rw [if_neg this]
   rw [e1, e2, e3]
   rfl
+
+/-- what position `j` of the copied-and-edited input list holds, before ANYONECANPAY -/
+def editedIn (sc : Bytes) (tx : Tx) (i w j : Nat) : TxIn where
+  prev := (tx.vin.getD j dfltIn).prev
+  scriptSig := if j ≠ i then [] else withoutCodeSeparators sc
+  sequence := if j ≠ i ∧ (isSingle w ∨ isNone w) then 0 else (tx.vin.getD j dfltIn).sequence
+
+theorem copy_get (tx : Tx) (i : Nat) (s : Bytes) (j : Nat) (hj : j < tx.vin.length) :
+    (legacyTxCopy tx i s).vin[j]? = some
+      { prev := (tx.vin.getD j dfltIn).prev, scriptSig := if j ≠ i then [] else s,
+        sequence := (tx.vin.getD j dfltIn).sequence } := by
+  simp only [legacyTxCopy, List.getElem?_set, List.length_map, List.getD_eq_getElem?_getD, List.getElem?_map]
+  by_cases e : i = j
+  · subst e
+    simp [hj]
+  · have : ¬ j = i := fun h => e h.symm
+    simp [e, this, hj]
+
+theorem zero_get (l : List TxIn) (i j : Nat) :
+    (zeroOtherSequences l i)[j]? = l[j]?.map (fun t => if j ≠ i then { t with sequence := 0 } else t) := by
+  simp [zeroOtherSequences, List.getElem?_mapIdx]
+
+
+theorem none_ne_single {w : Nat} (h : baseType w = Gen.SigHash.NONE) : baseType w ≠ Gen.SigHash.SINGLE := by
+  rw [h]; decide
+
+/-- the input list of the copy after the NONE / SINGLE edits, before ANYONECANPAY -/
+def editedVin (sc : Bytes) (tx : Tx) (i w : Nat) : List TxIn :=
+  if baseType w = Gen.SigHash.NONE ∨ baseType w = Gen.SigHash.SINGLE then
+    zeroOtherSequences (legacyTxCopy tx i (withoutCodeSeparators sc)).vin i
+  else (legacyTxCopy tx i (withoutCodeSeparators sc)).vin
+
+def editedVout (tx : Tx) (i w : Nat) : List TxOut :=
+  if baseType w = Gen.SigHash.NONE then []
+  else if baseType w = Gen.SigHash.SINGLE then List.replicate i blankOut ++ [tx.vout.getD i blankOut]
+  else tx.vout
+
+theorem legacyEdited_eq_parts (sc : Bytes) (tx : Tx) (i w : Nat) :
+    legacyEdited sc tx i w =
+      { version := tx.version, lockTime := tx.lockTime, vout := editedVout tx i w
+        vin := if w &&& Gen.SigHash.ACP_MASK ≠ 0 then [(editedVin sc tx i w).getD i dfltIn]
+               else editedVin sc tx i w } := by
+  unfold legacyEdited editedVin editedVout
+  by_cases hn : baseType w = Gen.SigHash.NONE
+  · have hs := none_ne_single hn
+    by_cases ha : w &&& Gen.SigHash.ACP_MASK ≠ 0 <;>
+      simp only [eq_true hn, eq_false hs, eq_true ha, eq_false ha, ↓reduceIte, or_false, or_true, true_or] <;> rfl
+  · by_cases hs : baseType w = Gen.SigHash.SINGLE
+    · by_cases ha : w &&& Gen.SigHash.ACP_MASK ≠ 0 <;>
+        simp only [eq_false hn, eq_true hs, eq_true ha, eq_false ha, ↓reduceIte, or_false, or_true, true_or,
+          false_or] <;> rfl
+    · by_cases ha : w &&& Gen.SigHash.ACP_MASK ≠ 0 <;>
+        simp only [eq_false hn, eq_false hs, eq_true ha, eq_false ha, ↓reduceIte, or_false, or_true, true_or,
+          false_or] <;> rfl
+
+theorem editedVin_get (sc : Bytes) (tx : Tx) (i w j : Nat) (hj : j < tx.vin.length) :
+    (editedVin sc tx i w)[j]? = some (editedIn sc tx i w j) := by
+  unfold editedVin editedIn
+  have hc := copy_get tx i (withoutCodeSeparators sc) j hj
+  by_cases hz : baseType w = Gen.SigHash.NONE ∨ baseType w = Gen.SigHash.SINGLE
+  · have hb : (isSingle w = true ∨ isNone w = true) := by
+      rcases hz with h | h
+      · right; simp [isNone, h]
+      · left; simp [isSingle, h]
+    simp only [hz, ↓reduceIte, zero_get, hc, Option.map_some, hb, and_true]
+    by_cases e : j = i <;> simp [e]
+  · have hb : ¬ (isSingle w = true ∨ isNone w = true) := by
+      intro h; apply hz
+      rcases h with h | h
+      · right; simpa [isSingle] using h
+      · left; simpa [isNone] using h
+    simp only [hz, ↓reduceIte, hc, hb, and_false]
+
+theorem editedVin_length (sc : Bytes) (tx : Tx) (i w : Nat) : (editedVin sc tx i w).length = tx.vin.length := by
+  unfold editedVin
+  split <;> simp [zeroOtherSequences, legacyTxCopy]
+
+
+theorem acp_iff (w : Nat) : anyoneCanPay w = true ↔ w &&& Gen.SigHash.ACP_MASK ≠ 0 := by
+  simp [anyoneCanPay]
+
+theorem editedVout_eq (tx : Tx) (i w : Nat) :
+    editedVout tx i w = (List.range (legacyNOut tx i w)).map (legacyOut tx i w) := by
+  unfold editedVout legacyNOut
+  by_cases hn : baseType w = Gen.SigHash.NONE
+  · have : isNone w = true := by simp [isNone, hn]
+    simp [hn, this]
+  · have hn' : isNone w = false := by simp [isNone, hn]
+    by_cases h3 : baseType w = Gen.SigHash.SINGLE
+    · have h3' : isSingle w = true := by simp [isSingle, h3]
+      simp only [eq_false hn, eq_true h3, ↓reduceIte, hn', h3', Bool.false_eq_true]
+      rw [List.range_succ, List.map_append]
+      congr 1
+      · apply List.ext_getElem (by simp)
+        intro j h1 h2
+        simp only [List.length_replicate] at h1
+        simp [legacyOut, h3', Nat.ne_of_lt h1]
+      · simp [legacyOut]
+    · have h3' : isSingle w = false := by simp [isSingle, h3]
+      simp only [eq_false hn, eq_false h3, ↓reduceIte, hn', h3', Bool.false_eq_true]
+      apply List.ext_getElem (by simp)
+      intro j h1 h2
+      simp [legacyOut, h3', h1]
+
+/-- btclib's copy-and-edit of the transaction IS the transaction Core's serializer virtually writes -/
+theorem legacyEdited_eq (sc : Bytes) (tx : Tx) (i w : Nat) (hi : i < tx.vin.length) :
+    legacyEdited sc tx i w = legacyTx sc tx i w := by
+  rw [legacyEdited_eq_parts]
+  unfold legacyTx
+  rw [← editedVout_eq tx i w]
+  congr 1
+  by_cases ha : w &&& Gen.SigHash.ACP_MASK ≠ 0
+  · have ha' : anyoneCanPay w = true := (acp_iff w).mpr ha
+    rw [if_pos ha]
+    simp only [legacyNIn, ha', ↓reduceIte]
+    have := editedVin_get sc tx i w i hi
+    simp only [List.getD_eq_getElem?_getD, this, Option.getD_some]
+    simp [legacyIn, legacyIdx, ha', editedIn]
+  · have ha' : anyoneCanPay w = false := by
+      cases h : anyoneCanPay w
+      · rfl
+      · exact absurd ((acp_iff w).mp h) ha
+    rw [if_neg ha]
+    simp only [legacyNIn, ha', ↓reduceIte, Bool.false_eq_true]
+    apply List.ext_getElem?
+    intro j
+    by_cases hj : j < tx.vin.length
+    · rw [editedVin_get sc tx i w j hj]
+      simp [hj, legacyIn, legacyIdx, ha', editedIn]
+    · have h1 : (editedVin sc tx i w)[j]? = none := by
+        rw [List.getElem?_eq_none_iff, editedVin_length]; omega
+      rw [h1]
+      simp [hj]
+
+
+/-- the btclib-shaped `legacy` computes the legacy digest of the specification: codeseparator elision, the
+    NONE / SINGLE edits, ANYONECANPAY, the SIGHASH_SINGLE out-of-range constant, either spelling of the type -/
+theorem legacy_eq_spec {S : Bytes → Bytes} {sc : Bytes} {tx : Tx} {i ht : Int} {d : Bytes}
+    (h : legacy S sc tx i ht = .ok d) : d = legacyDigest (hash256 S) sc tx i.toNat (word ht) := by
+  unfold legacy at h
+  obtain ⟨sht, hsht, h⟩ := bind_ok h
+  obtain ⟨n, hn, h⟩ := bind_ok h
+  obtain ⟨h0, h1, rfl⟩ := assertVin_ok hn
+  have hi : i.toNat < tx.vin.length := by omega
+  unfold legacyDigest legacySingleBug
+  simp only at h
+  split at h
+  · next c =>
+    cases h
+    have : (isSingle (word ht) && decide (i.toNat ≥ tx.vout.length)) = true := by
+      simp [isSingle, c.1, c.2]
+    rw [if_pos this]
+  · next c =>
+    have : ¬ ((isSingle (word ht) && decide (i.toNat ≥ tx.vout.length)) = true) := by
+      simpa [isSingle] using c
+    rw [if_neg this]
+    unfold legacyChecked at h
+    obtain ⟨_, h⟩ := unit_bind_ok h
+    obtain ⟨_, h⟩ := unit_bind_ok h
+    obtain ⟨_, h⟩ := unit_bind_ok h
+    obtain ⟨_, h⟩ := unit_bind_ok h
+    cases h
+    rw [legacyEdited_eq sc tx i.toNat (word ht) hi, (serialized_hash_type_ok hsht).1]
+    rfl
+
+/-! ### taproot -/
+
+theorem tapMid_ok {S : Bytes → Bytes} {tx : Tx} {prevouts : List TxOut} {w : Nat} {b : Bytes}
+    (h : tapMid S tx prevouts w none = .ok b) :
+    b = tapTxHashes S tx prevouts w ++ tapOutputsHash S tx w := by
+  unfold tapMid at h
+  unfold tapTxHashes tapOutputsHash
+  split at h
+  · obtain ⟨p, hp, h⟩ := bind_ok h
+    cases h
+    obtain ⟨a, b', d, e, ha, hb, hd, he, rfl⟩ := precompute_ok hp
+    rw [serializedPrevouts_ok ha, serializedAmounts_ok hb, serializedSequences_ok hd, serializedOutputs_ok he]
+    cases tapAcp w <;> cases tapNone w <;> cases tapSingle w <;> simp
+  · next c =>
+    cases h
+    revert c
+    cases tapAcp w <;> cases tapNone w <;> cases tapSingle w <;> simp
+
+theorem tapOwn_ok {tx : Tx} {i : Nat} {prevouts : List TxOut} {w : Nat} {b : Bytes}
+    (h : tapOwn tx i prevouts w = .ok b) : b = tapInputData tx i prevouts w := by
+  unfold tapOwn at h
+  unfold tapInputData
+  split at h
+  · next c =>
+    rw [if_pos c]
+    split at h
+    · cases h
+    · next po hpo =>
+      obtain ⟨a, ha, h⟩ := bind_ok h
+      obtain ⟨b', hb, h⟩ := bind_ok h
+      obtain ⟨d, hd, h⟩ := bind_ok h
+      cases h
+      rw [serOutPointC_ok ha, serCAmount_ok hb, ser4_ok hd]
+      simp [List.getD_eq_getElem?_getD, hpo]
+  · next c =>
+    cases h
+    rw [if_neg c]
+
+theorem tapSgl_ok {S : Bytes → Bytes} {tx : Tx} {i w : Nat} {b : Bytes}
+    (h : tapSgl S tx i w = .ok b) : b = tapSingleHash S tx i w := by
+  unfold tapSgl at h
+  unfold tapSingleHash
+  split at h
+  · next c =>
+    obtain ⟨x, hx, h⟩ := bind_ok h
+    cases h
+    rw [if_pos c, serOutputC_ok hx]
+  · next c =>
+    cases h
+    rw [if_neg c]
+
+/-- the annex as BIP341 sees it: present iff non-empty -/
+def annexOpt (annex : Bytes) : Option Bytes := if annex.isEmpty then none else some annex
+
+theorem spend_type_ok {ext : Option TapExt} {annex : Bytes} {st : Bytes}
+    (h : Gen.SigHash.serialized_spend_type (if ext.isSome then 1 else 0) (if !annex.isEmpty then 1 else 0) = .ok st) :
+    st = [spendType ext (annexOpt annex)] := by
+  unfold annexOpt
+  cases ext <;> cases annex <;> simp at h <;> cases h <;> rfl
+
+/-- the btclib-shaped `taproot` computes BIP341's digest of the specification -- every one of the seven
+    hash types, annex present or not, key path (`ext = none`: flag 0, empty extension) or script path
+    (`ext = some e`: flag 1, the BIP342 extension bytes) -/
+theorem taproot_eq_spec {S : Bytes → Bytes} {tx : Tx} {i : Int} {prevouts : List TxOut} {ht : Int}
+    {annex : Bytes} {d : Bytes} (ext : Option TapExt)
+    (h : taproot S tx i prevouts ht (if ext.isSome then 1 else 0) annex (tapExtBytes ext) none = .ok d) :
+    d = bip341Digest S tx i.toNat prevouts ht.toNat (annexOpt annex) ext := by
+  unfold taproot at h
+  obtain ⟨_, h⟩ := unit_bind_ok h
+  obtain ⟨n, hn, h⟩ := bind_ok h
+  obtain ⟨_, _, rfl⟩ := assertVin_ok hn
+  split at h
+  · cases h
+  split at h
+  · cases h
+  split at h
+  · cases h
+  unfold taprootChecked at h
+  obtain ⟨v, hv, h⟩ := bind_ok h
+  obtain ⟨l, hl, h⟩ := bind_ok h
+  obtain ⟨mid, hmid, h⟩ := bind_ok h
+  obtain ⟨st, hst, h⟩ := bind_ok h
+  obtain ⟨own, hown, h⟩ := bind_ok h
+  obtain ⟨sgl, hsgl, h⟩ := bind_ok h
+  cases h
+  rw [ser4_ok hv, ser4_ok hl, tapMid_ok hmid, spend_type_ok hst, tapOwn_ok hown, tapSgl_ok hsgl]
+  unfold bip341Digest bip341Preimage
+  have ea : (if (!annex.isEmpty) = true then S (varBytes annex) else []) = tapAnnexHash S (annexOpt annex) := by
+    unfold annexOpt tapAnnexHash
+    cases annex <;> simp
+  rw [ea]
+  simp only [List.append_assoc]
 
 end Btc.Sighash.Impl
